@@ -296,10 +296,61 @@ class ParamsReplayer:
             bad.append("rebuilt record differs from the original")
         for f in list(d):  # the dictionary form is a copy: changing it must not reach the immutable record
             d[f] = None
-        if inst != cls():
-            bad.append("mutating the dictionary form changed the record")
+        if inst != cls() or not all(_same(inst.as_dict().get(f, MISSING), self.value(t, self.root)) for f, t in c["dict"].items()):
+            bad.append("mutating the dictionary form changed the record or its later dictionary forms")
         if bad:
             col.add("S", dict(clause="dict-round-trip"), f"{c['cls']} does not round-trip through as_dict(): {bad[:4]}", dict(case=c, bad=bad))
+
+
+def _dictseq(self, c, col, inst=None):
+    """One instance: as_dict(); edit that copy; as_dict() again; attributes; rebuild from it."""
+    if inst is None:
+        obj = self.cls(c["cls"])
+        try:
+            inst = obj() if isinstance(obj, type) else obj
+        except Exception as ex:  # noqa: BLE001
+            col.add("S", dict(clause="preset-construction-raised", exc=type(ex).__name__), f"{c['cls']}() raised {type(ex).__name__}", dict(case=c))
+            return
+    copies, bad = [], []
+    try:
+        for op in c["ops"]:
+            if op == "as_dict":
+                copies.append(inst.as_dict())
+            elif op == "edit_first_copy":
+                for f in list(copies[0]):
+                    copies[0][f] = "<edited>"
+                copies[0]["<added>"] = "<edited>"
+            elif op == "from_dict_of_last":
+                rebuilt = type(inst)(**copies[-1])
+                if c["rebuilt_equal"] and not (rebuilt == inst and hash(rebuilt) == hash(inst)):
+                    bad.append(("rebuilt", "record rebuilt from the dictionary form differs from the record"))
+            else:
+                raise MachineryError(f"unknown dictseq op {op}")
+    except MachineryError:
+        raise
+    except Exception as ex:  # noqa: BLE001
+        bad.append(("raised", f"{type(ex).__name__}: {ex}"[:120]))
+    if len(copies) >= 2:
+        second = copies[1]
+        if set(second) != set(c["second"]):
+            bad.append(("keys", "keys of the second dictionary form: " + str(sorted(set(second) ^ set(c["second"])))[:120]))
+        for f, text in c["second"].items():
+            if f in second and not _same(second[f], self.value(text, c["origin"][f])):
+                bad.append((f, f"second as_dict()[{f}] = {second[f]!r}, declared {text}"))
+    for f, text in c["attributes"].items():
+        if not _same(getattr(inst, f, MISSING), self.value(text, c["origin"][f])):
+            bad.append((f, f"attribute {f} = {getattr(inst, f, MISSING)!r} after editing the dictionary form, declared {text}"))
+    bad.sort(key=lambda b: b[0] in ("raised", "rebuilt"))  # lead with the value that changed
+    if bad:
+        col.add(
+            "S",
+            dict(clause="dictionary-form-not-an-independent-copy"),
+            f"{c['cls']}: after d = p.as_dict() and editing d, the record no longer yields / round-trips its declared values: {bad[0][1]}",
+            dict(kind="dictseq", cls=c["cls"], ops=c["ops"], failures=[b[1] for b in bad[:8]]),
+        )
+
+
+ParamsReplayer._dictseq = _dictseq
 
 
 def _probe(fn):
@@ -320,10 +371,10 @@ def run_params(chk, d, tier):
     res = run_tlc("Params", workers=WORKERS, timeout=300, env={"C19_DECL_FILE": decl_file})
     cases = parse_printed_json(res.output, "CASE")
     n_cls, n_f = len(decl["classes"]), len(decl["order"])
-    want = n_cls * n_f + 2 * n_f + 2
+    want = n_cls * n_f + 2 * n_f + 2 + n_cls
     if len(cases) != want:
         raise MachineryError(f"Params.tla emitted {len(cases)} cases, expected {want}")
-    chk.add_tlc("Params", res, f"{n_cls} classes x {n_f} fields (declarations read from the source with ast) + frozen/hash/round-trip cases of the root record; 7 lemmas")
+    chk.add_tlc("Params", res, f"{n_cls} classes x {n_f} fields (declarations read from the source with ast) + frozen/hash/round-trip cases of the root record + as_dict/edit/as_dict/rebuild sequence per class; 8 lemmas")
     rep = ParamsReplayer(decl)
     # the quantifier is 'all presets in the mock module': the ast extraction must have found each of them
     rootcls = rep.cls(decl["root"])
@@ -332,12 +383,13 @@ def run_params(chk, d, tier):
     if missing:
         raise MachineryError(f"presets not found by the ast extraction: {missing}")
     col = Collector(cap=400)
+    cases.sort(key=lambda c: c["kind"] == "dictseq")  # the editing sequences run last
     for c in cases:
         rep.replay(c, col)
         if c["kind"] == "value":
             chk.count(("value", c["cls"], c["field"]), nontrivial=bool(c["own"]))
         else:
-            chk.count((c["kind"], c.get("field"), c.get("op")))
+            chk.count((c["kind"], c.get("cls"), c.get("field"), c.get("op")))
     col.flush(chk)
     differing = [c for c in cases if c["kind"] == "value" and c["differs"]]
     chk.sample(dict(kind="preset-value", case=(differing or cases)[0]))
@@ -355,6 +407,13 @@ def run_params(chk, d, tier):
     chk.control("params-wrong-frozen-outcome-flagged", _probe(lambda k: rep.replay(dict(fz, outcome="accepted"), k)) == 1)
     rt = next(c for c in cases if c["kind"] == "roundtrip")
     chk.control("params-wrong-round-trip-flagged", _probe(lambda k: rep.replay(dict(rt, expected=dict(rt["expected"], **{decl["order"][0]: "'x'"})), k)) == 1)
+    ds = next(c for c in cases if c["kind"] == "dictseq" and c["cls"] == decl["root"])
+    chk.control("params-wrong-second-dictionary-form-flagged", _probe(lambda k: rep.replay(dict(ds, second=dict(ds["second"], **{decl["order"][0]: "'x'"})), k)) == 1)
+    # a record whose as_dict() hands out one shared dictionary must be flagged by the sequence
+    rootcls = rep.cls(decl["root"])
+    shared = rootcls().as_dict()
+    leaky = type("Leaky", (rootcls,), {"as_dict": lambda self: shared})()
+    chk.control("params-shared-dictionary-form-flagged", _probe(lambda k: rep._dictseq(ds, k, inst=leaky)) == 1)
     return decl_file
 
 
@@ -647,6 +706,44 @@ def _exc(outcome):
     return outcome.split(":", 1)[1] if outcome.startswith("other:") else outcome
 
 
+_VALUE_KEYS = (("parameters", "phase_assemblage", "asm"), ("parameters", "phase_fractions", "fr"), ("parameters", "initial_olivine_fabric", "fab"), ("output", "raw_output", "raw"), ("output", "diagnostics", "diag"))
+
+
+def _present(case, table):
+    keys = [tuple(k) for k in table["keys"][case["mode"]]]
+    return {k for k, bit in zip(keys, case["keys"]) if bit}
+
+
+def _same_values(case, full, table):
+    """Every value-dimension key that `case` supplies has the value `full` supplies."""
+    pres = _present(case, table)
+    return all(case[field] == full[field] for t, k, field in _VALUE_KEYS if (t, k) in pres)
+
+
+def _value_classes(case, table):
+    """Discrete description of the value dimensions for signatures: number of simulated phases,
+    how raw_output / diagnostics select among them, fabric letter."""
+    pres = _present(case, table)
+    n = len(case["asm"]) if ("parameters", "phase_assemblage") in pres else 1
+
+    def sel(t, k, field):
+        if (t, k) not in pres:
+            return "omitted"
+        m = len(case[field][1])
+        return "none" if m == 0 else "all" if m >= n else "strict-subset"
+
+    out = dict(n_phases=n, raw=sel("output", "raw_output", "raw"), diag=sel("output", "diagnostics", "diag"))
+    if out["raw"] != "omitted" and out["diag"] != "omitted":
+        out["diag_in_raw"] = set(case["diag"][1]) <= set(case["raw"][1])
+    if ("parameters", "initial_olivine_fabric") in pres and case["fab"][1] != "A":
+        out["fabric"] = str(case["fab"][1])
+    return out
+
+
+def _describe(case):
+    return f"lists {_lists(case)}, fabric {case['fab'][1]}, raw_output {case['raw'][1]}, diagnostics {case['diag'][1]}"
+
+
 def _lists(case):
     asm = "+".join(str(p[1]) for p in case["asm"])
     fr = "+".join(f"{n}/{d}" for n, d in case["fr"])
@@ -669,7 +766,7 @@ def attribute_failures(fails, table, col, n_full=None):
 
     valid = [(case, out, replay, _omitted(case, table)) for case, out, replay in fails if "ok" in case["outcome"] and case["fault"] == "none"]
     invalid = [(case, out, replay) for case, out, replay in fails if not ("ok" in case["outcome"] and case["fault"] == "none")]
-    key_cause, mode_cause, full_fail = {}, {}, {}
+    key_cause, mode_cause, full_fail, full_specific = {}, {}, {}, {}
     for case, out, replay, om in valid:
         if len(om) == 0:
             full_fail.setdefault((case["mode"], out), []).append((case, replay))
@@ -679,10 +776,17 @@ def attribute_failures(fails, table, col, n_full=None):
             mode_cause[(mode, out)] = lst
             col.add("S", dict(clause="documented-input-mode-rejected", mode=mode, exc=_exc(out)), f"no fully populated configuration in input mode {mode} parses: {out} ({lst[0][1]['message']})", lst[0][1])
         else:
+            # fully populated configurations that fail only for particular values of the value dimensions
+            full_specific[(mode, out)] = [c for c, _ in lst]
             for c, replay in lst:
-                col.add("S", dict(clause="valid-config-rejected", omitted=[], lists=_lists(c), fabric=c["fab"][1], exc=_exc(out)), f"fully populated configuration with lists {_lists(c)}, fabric {c['fab'][1]} does not parse: {out} ({replay['message']})", replay)
+                col.add("S", dict(clause="valid-config-rejected", exc=_exc(out), **_value_classes(c, table)), f"fully populated valid configuration ({_describe(c)}) does not parse: {out} ({replay['message']})", replay)
+
+    def covered(case, out):
+        """Is this failure the same as that of a fully populated configuration with the same values?"""
+        return any(_same_values(case, f, table) for f in full_specific.get((case["mode"], out), ()))
+
     for case, out, replay, om in valid:
-        if len(om) == 1 and (case["mode"], out) not in mode_cause:
+        if len(om) == 1 and (case["mode"], out) not in mode_cause and not covered(case, out):
             key_cause.setdefault((om[0], out), []).append(replay)
     for ((t, k), out), reps in key_cause.items():
         col.add("S", dict(clause="optional-key-omitted", table=t, key=k, exc=_exc(out)), f"configuration omitting only {t}.{k} does not parse: {out} ({reps[0]['message']})", reps[0])
@@ -691,21 +795,22 @@ def attribute_failures(fails, table, col, n_full=None):
     for case, out, replay, om in valid:
         if len(om) == 0 or (len(om) == 1 and (om[0], out) in key_cause):
             continue
-        if (case["mode"], out) in mode_cause or any((k, out) in key_cause for k in om):
+        if (case["mode"], out) in mode_cause or any((k, out) in key_cause for k in om) or covered(case, out):
             n_explained += 1
             continue
         rest.append((case, out, replay, om))
     rest.sort(key=lambda x: len(x[3]))
     minimal = []
     for case, out, replay, om in rest:
-        if any(set(m) <= set(om) and o == out for m, o in minimal):
+        vc = _value_classes(case, table)
+        if any(set(m) <= set(om) and o == out and v == vc for m, o, v in minimal):
             continue
-        minimal.append((om, out))
+        minimal.append((om, out, vc))
         hdr = {t: bool(v) for t, v in case["hdr"].items()}
         col.add(
             "S",
-            dict(clause="valid-config-rejected", omitted=[f"{t}.{k}" for t, k in om] if len(om) <= 3 else f"{len(om)} keys", headers=hdr if len(om) > 3 else None, exc=_exc(out)),
-            f"configuration with the required inputs does not parse when {len(om)} optional keys are omitted: {out} ({replay['message']})",
+            dict(clause="valid-config-rejected", omitted=[f"{t}.{k}" for t, k in om] if len(om) <= 3 else f"{len(om)} keys", headers=hdr if len(om) > 3 else None, exc=_exc(out), **vc),
+            f"valid configuration ({_describe(case)}) does not parse when {len(om)} optional keys are omitted: {out} ({replay['message']})",
             replay,
         )
     for case, out, replay in invalid:
@@ -736,7 +841,7 @@ def run_config(chk, d, tier, decl_file):
     chk.add_tlc(
         "Config/" + cfgname,
         res,
-        "optional-key subsets (few present / few omitted) x table headers x 4 input-mode variants x 7 phase-list shapes x 5 fabric letters + 22 single faults on full and minimal bases; 7 lemmas",
+        "optional-key subsets (few present / few omitted) x table headers x 4 input-mode variants x 6 phase-list shapes x 5 fabric letters x raw_output/diagnostics selections + 21 single faults; 8 lemmas",
     )
     rep = ConfigReplayer(table, d / "cfg")
     t0 = time.time()
@@ -761,7 +866,7 @@ def run_config(chk, d, tier, decl_file):
         for k, v in poutcomes.items():
             outcomes[k] = outcomes.get(k, 0) + v
     for case in cases:
-        chk.count((case["mode"], tuple(case["keys"]), tuple(case["hdr"].values()), json.dumps([case["asm"], case["fr"], case["fab"]]), case["fault"]))
+        chk.count((case["mode"], tuple(case["keys"]), tuple(case["hdr"].values()), json.dumps([case["asm"], case["fr"], case["fab"], case["raw"], case["diag"]]), case["fault"]))
     chk.cov["config_replay_s"] = round(time.time() - t0, 1)
     chk.cov["config_replay_processes"] = nproc
     n_full = {}
@@ -822,7 +927,7 @@ def main(tier):
         run_config(chk, d, tier, decl_file)
     return chk.finish(
         rule="Params: every (class, field) of DefaultParams and the pydrex.mock presets, distinct by pair, non-trivial when the class declares the field itself; "
-        "Config: every configuration enumerated by TLC from Config.tla (optional-key subsets with <= MaxPresent present or <= MaxOmitted omitted, x table headers x input modes x phase-list shapes x fabric letters, plus every single fault), distinct by (mode, key vector, headers, lists, fabric, fault)",
+        "Config: every configuration enumerated by TLC from Config.tla (optional-key subsets with <= MaxPresent present or <= MaxOmitted omitted, x table headers x input modes x phase-list shapes x fabric letters, plus every single fault), x values of raw_output / diagnostics (omitted, all simulated, each strict subset, none), distinct by (mode, key vector, headers, lists, fabric, output lists, fault)",
         exhaustive=False,  # exhaustive over the stated bounds, not over all 2^26 key subsets
         trusted=["the documented configuration format as transcribed in Config.tla (data/specs/*.toml comments, DefaultParams field documentation)", "Python's ast module for reading class-body declarations"],
     )
